@@ -90,9 +90,17 @@ func NewBundle(c *gen.Case, order []int) *soy.Bundle {
 		b.AddGlobalsMap(SharedGlobals)
 	}
 	if len(c.Globals) > 0 {
-		if GlobalsAsFile || c.GlobalsFile {
+		switch {
+		case c.GlobalsSplit:
+			// two sources; the maps are the application's own objects, the same for every bundle of the case
+			m1, m2 := c.HeldGlobals()
+			b.AddGlobalsMap(m1)
+			if len(m2) > 0 {
+				b.AddGlobalsMap(m2)
+			}
+		case GlobalsAsFile || c.GlobalsFile:
 			b.AddGlobalsFile(globalsFile(c))
-		} else {
+		default:
 			b.AddGlobalsMap(c.GlobalsMap())
 		}
 	}
